@@ -45,6 +45,11 @@ public:
 
     bool is_running() override;
 
+#ifdef BFL_VERIF
+    /* Verification hook: returns once the run mutex could be acquired and released. */
+    void verif_lock_unlock();
+#endif
+
 
 protected:
     FilteringAlgorithm() = default;
@@ -62,6 +67,11 @@ protected:
     virtual void filtering_step() = 0;
 
     virtual bool run_condition() = 0;
+
+#ifdef BFL_VERIF
+    /* Verification hook: numbered schedule points of the filtering recursion. */
+    virtual void verif_schedule_point(int point);
+#endif
 
 
 private:
